@@ -529,7 +529,8 @@ CHECKS["C20"] = dict(
           "front of an echo backend, with connection limit 0..3: open / close / abort (RST) up to 5 client connections, pipelined command "
           "batches (GET/SET/MGET/MSET/DEL/INCR/LPUSH with wrong-type errors, PING, the unsupported KEYS, an invalid arity), backend "
           "connection drops (FIN/RST), a backend connection killed after 1..5 commands, slot migrations that force MOVED or ASK "
-          "redirections; the history ends in quiescence either by closing all clients or by Stop() with connections open. Oracle (polled "
+          "redirections; for the TCP service: the backend going down and coming back (connects fail meanwhile) and the host leaving and "
+          "re-joining the endpoint set (no usable host meanwhile; established connections are closed); the history ends in quiescence either by closing all clients or by Stop() with connections open. Oracle (polled "
           "for up to 5 s at quiescence): downstream cx_active == 0 and cx_total == cx_destroy_total (TCP: upstream alike); downstream and "
           "upstream rq_total == rq_success_total + rq_failure_total; per Redis command total == success + error; cx_restricted lies between the "
           "number of connections opened while the model itself was at the limit and the number of all connections closed without "
